@@ -235,7 +235,7 @@ package table
 //@   ensures [C15.return.onewrite] m.store.nwk[leaseKey(name)] <= old(m.store.nwk[leaseKey(name)]) + 1 && forall k string :: k != leaseKey(name) ==> m.store.nwk[k] == old(m.store.nwk[k])
 //@   ensures [C15.return.nowrite] !returned ==> m.store.nwk[leaseKey(name)] == old(m.store.nwk[leaseKey(name)])
 //@   ensures [C15.return.cas] returned ==> err == nil && m.store.nwk[leaseKey(name)] == old(m.store.nwk[leaseKey(name)]) + 1 && m.store.wDel[leaseKey(name)] && m.store.rHas[leaseKey(name)] && m.store.wVer[leaseKey(name)] == m.store.rPair[leaseKey(name)].Ver
-//@   ensures [C15.return.own] returned ==> leaseIn(m.store.rPair[leaseKey(name)]).ID == m.cfg.NodeID
+//@   ensures [C15.return.own+C05] returned ==> leaseIn(m.store.rPair[leaseKey(name)]).ID == m.cfg.NodeID
 //@   modifies m.store.rHas, m.store.rPair, m.store.nwk, m.store.wVal, m.store.wVer, m.store.wDel, m.store.wPrevHas, m.store.wPrev
 
 // From the per-call contracts to mutual exclusion. Versions identify records (a successful set gives
@@ -641,6 +641,13 @@ package table
 //@   ensures [C10.read.path] (linearizable ==> t.nh.nsync == old(t.nh.nsync) + 1 && t.nh.nstale == old(t.nh.nstale)) && (!linearizable ==> t.nh.nstale == old(t.nh.nstale) + 1 && t.nh.nsync == old(t.nh.nsync))
 //@   modifies t.nh.nsync, t.nh.nstale
 
+// Snapshot (what a follower restores from): always through the consensus read path - a snapshot
+// served by a lagging replica would move a follower's content and leader index backwards
+//@ func (*ActiveTable).Snapshot#path
+//@   maypanic
+//@   requires t != nil && t.nh != nil && ctx != nil
+//@   ensures [C05.snapshot.sync+C07+C10] t.nh.nsync == old(t.nh.nsync) + 1 && t.nh.nstale == old(t.nh.nstale)
+//@   modifies t.nh.nsync, t.nh.nstale
 // Range / Iterator: the consistency level requested by the caller decides the read path
 //@ func (*ActiveTable).Range
 //@   maypanic
